@@ -20,7 +20,7 @@ CHECKS = {
 }
 
 CHECKS.update({
-    'C01': ('Hypothesis composite program generator; differential: hidc+VM event stream vs source-level reference interpreter',
+    'C01': ('Hypothesis composite program generator + a fixed family of scale programs (many locals / parameters / constants / functions / branches / elements); differential: hidc+VM event stream vs source-level reference interpreter',
             'Generated-input search over well-typed sequential programs x argv x word size x {generous, minimal} stack, '
             'oracle = independent reference interpreter. Right level: the property quantifies over all programs; a '
             'differential against an executable semantics is the strongest decidable check available here.', '3/C01'),
@@ -58,7 +58,7 @@ CHECKS.update({
     'C11': ('exhaustive operator pairs/triples with decorations + Hypothesis random trees; round trip print(min parens)->parse and independent precedence-climbing parser',
             'Pairs and triples of all binary operators in every tree shape are enumerated; deeper trees sampled. Round-trip '
             'and an independent parser are exact oracles for grouping.', '3/C11'),
-    'C12': ('Hypothesis token-spelling/layout generation and raw text (thorough tier adds atheris/libFuzzer coverage-guided campaigns); differential vs independent reference tokenizer; layout metamorphosis on tokens and emitted instructions',
+    'C12': ('Hypothesis token-spelling/layout generation, raw text, flavoured-identifier twins and huge token-free gaps (thorough tier adds atheris/libFuzzer coverage-guided campaigns); differential vs independent reference tokenizer; layout metamorphosis on tokens and emitted instructions',
             'Differential against a hand-written tokenizer on generated spellings and layouts, plus a metamorphic relation '
             '(re-layout never changes tokens or code).', '3/C12'),
 })
@@ -74,7 +74,7 @@ CHECKS.update({
     'C07': ('Hypothesis well-typed program generator + single-rule statement mutants; differential accept/reject vs independent typechecker; overload identity via output',
             'Differential against an independent implementation of the documented typing rules in both directions, on '
             'well-typed programs and on mutants placed at reachable sites.', '3/C07'),
-    'C08': ('Hypothesis program generator (arrays in nested scopes, every exit route); replay monitor on (fp, ap) at calls, loop instances and try/stop; entitlement monitor; differential at S_min',
+    'C08': ('Hypothesis program generator (arrays in nested scopes, every exit route) + ScopeHistory RuleBasedStateMachine (loop iterations leaving by scheduled routes, n/3n footprint twins); replay monitor on (fp, ap) at calls, loop instances and try/stop; entitlement monitor; differential at S_min',
             'Generated-input search with run-time invariants sampled on the committed path at the labels hidc emits, plus '
             'differential output at the minimal stack size.', '3/C08'),
     'C16': ('Hypothesis control-flow body generator; fall-through monitor + tell-tale + differential; reference witness for "completes without returning"; structural acceptance rule',
